@@ -16,6 +16,7 @@ for pid, cfg in sorted(CHECKS.items()):
             seen.add((tree, spec["name"]))
             if tree != "san":
                 subprocess.check_call(["/verif/tools/build_tree.sh", tree])
+            if spec.get("instrumented"): subprocess.check_call(["/verif/tools/build_instrumented.sh", tree])
             cmd = ["/verif/tools/build_harness.sh", tree, spec["name"]] + spec["srcs"] + COMMON_SRCS
             if spec.get("extra"): cmd += ["--"] + spec["extra"]
             subprocess.check_call(cmd, cwd="/verif")
